@@ -60,6 +60,17 @@ class Registry:
                 self.state[key] = "absent"
         return self.state[key]
 
+    def pre_state(self, key: Any) -> str:
+        """The state the key had before the call, decided now if the code never asked: a
+        definition that does not even look must still be right for every pre-state."""
+        if key not in self.state:
+            saved, self.writes = self.writes, []
+            try:
+                self._state(key)
+            finally:
+                self.writes = saved
+        return self.state[key]
+
     def __contains__(self, key: Any) -> bool:
         return self._state(key) != "absent"
 
@@ -156,6 +167,10 @@ def atomicity_worker(task: Tuple) -> Dict[str, Any]:
                 raised = e
             obj = U if U is not None else (result if isinstance(result, Unit) else None)
             created = [v for _, v in Unit._known.writes]
+            if n is not None:
+                regs["by_name"].pre_state(n)
+            if s is not None:
+                regs["by_symbol"].pre_state(s)
             return {"raised": raised, "obj": obj, "created": created,
                     "by_name": list(regs["by_name"].writes), "by_symbol": list(regs["by_symbol"].writes),
                     "base": list(regs["base"].writes), "ratios": list(ratio_w),
